@@ -52,7 +52,7 @@ class WorkerSilent(Exception):
     """A worker that was handed a task produced nothing for STUCK_AFTER_S of real time (it is blocked, not slow)."""
 
 
-STUCK_AFTER_S = 150.0
+STUCK_AFTER_S = 75.0
 
 
 def _recv(fd, stuck_after=None):
